@@ -2,6 +2,7 @@ SPECIFICATION TraceSpec
 CONSTANTS
   SurfSeq <- MC_SurfSeq
   Relief <- MC_Relief
+  Compressible <- MC_Compressible
   MaxSweep = 3
   CheckOrder <- MC_CheckOrder
   Relaxed <- MC_Relaxed
